@@ -22,6 +22,7 @@ OUTSIDE = ('symbolic land sides (floor(ly*(n-1)/lx+1) with both symbolic: z3 unk
            'catalogue + seeded pairs; lots narrower than three rows at the maximum spacing; sub-ulp effects at count boundaries other '
            'than the kernel lemma.')
 TOL = 1e-9
+FULL_GRIDS = False
 
 
 def setup():
@@ -161,10 +162,13 @@ def body(v, kind, L, W, rng=(2.0, 25.0, 25.0)):
                 f = dom[k]
                 k += 1
                 cs.append(len(f) == n_side * (n_side + j))
-                # n x (n+j) grid at exactly spacing b
+                # n x (n+j) grid at exactly spacing b (quick tier: every point for grids up to 8 rows and for the two largest
+                # candidates, first/last point of each row otherwise)
                 exp = [(i * b, jj * b) for i in range(n_side) for jj in range(n_side + j)]
                 cs.append(len(exp) == len(f))
-                cs += [conj([f[t][0] == exp[t][0], f[t][1] == exp[t][1]]) for t in range(len(f))]
+                full = FULL_GRIDS or n_side <= 8 or k >= len(dom) - 1
+                idx = range(len(f)) if full else sorted({t for i in range(n_side) for t in (i * (n_side + j), i * (n_side + j) + n_side + j - 1)})
+                cs += [conj([f[t][0] == exp[t][0], f[t][1] == exp[t][1]]) for t in idx]
         nmax = len(dom) // 2
         cs.append((nmax - 1) * b <= L)
         cs.append(nmax * b > L)                      # and no larger grid would fit: the domain is complete
@@ -261,6 +265,8 @@ LOTS_T = LOTS_Q + [(85.0, 40.0), (40.0, 85.0), (60.0, 60.0), (36.5, 85.0), (85.0
 
 
 def units(tier, seed):
+    global FULL_GRIDS
+    FULL_GRIDS = tier == 'thorough'
     rnd = random.Random(seed)
     lots = list(LOTS_Q if tier == 'quick' else LOTS_T)
     for _ in range(1 if tier == 'quick' else 12):
@@ -281,8 +287,9 @@ def units(tier, seed):
                            '%s generator, land %g x %g m concrete; b_min all reals in [%g,%g], b_max_x, b_max_y all reals in [b_min,%g], at least three rows at the maximum spacing'
                            % (kind, L, W, rng[0], rng[1], rng[2]), AS, max_seconds=2400 if tier == 'thorough' else 700, timeout_ms=60000))
     for L in sorted({l for l, _ in lots}):
-        us.append(Unit('near_square_%g' % L, make_fn('near_square', L, L), make_replay('near_square', L, L), setup, F,
-                       'near-square design, side %g m concrete, spacing b all reals in [2, min(25, side)]' % L, AS, max_seconds=900))
+        nrng = (4.0, 25.0, 25.0) if tier == 'quick' else (2.0, 25.0, 25.0)
+        us.append(Unit('near_square_%g' % L, make_fn('near_square', L, L, rng=nrng), make_replay('near_square', L, L, nrng), setup, F,
+                       'near-square design, side %g m concrete, spacing b all reals in [%g, min(25, side)]' % (L, nrng[0]), AS, max_seconds=1500))
     us.append(Unit('fp_kernel', fp_kernel_fn(3, 120 if tier == 'quick' else 400), None, None, [],
                    'count n: every Int in 3..%d; ratio L/b all reals in [1,1000]; three rounding errors |eps| <= 2^-53' % (120 if tier == 'quick' else 400),
                    ['standard relative-error model of binary64 (normal range)'], max_seconds=900))
